@@ -15,7 +15,9 @@ def allowed : RSC → List String
 /-- `form` = dq | sq | content; typed / plain = real results (`some out` = ok) -/
 def c03 (form : String) (e a pre : Bytes) (tag : String) (contents : Bytes)
     (typed plain : Option Bytes) : String :=
-  let ctx : Option Cx := if form == "content" then
+  -- form "after": the action follows the END tag of element `e` (written with separator `pre` before '>'), so it is
+  -- top-level element content whatever `e` is
+  let ctx : Option Cx := if form == "after" then reviewedContent [] else if form == "content" then
       (if Oracle.C04.htmlVoid.contains (Oracle.C04.lowerB e) then reviewedContent [] else reviewedContent (Oracle.C04.lowerB e))
     else reviewedAttr (Oracle.C04.lowerB e) (Oracle.C04.lowerB a) []
   match typed with
@@ -24,7 +26,7 @@ def c03 (form : String) (e a pre : Bytes) (tag : String) (contents : Bytes)
     -- (1) inside an attribute value nothing may terminate the attribute or the tag
     let r := tokenize out
     let attrOk : Bool :=
-      if form == "content" then true
+      if form == "content" || form == "after" then true
       else match r.tokens with
         -- exactly the one start tag with the one attribute (the tokenizer may then be in the RCDATA / RAWTEXT /
         -- script state of that element, which is the author's doing)
@@ -38,7 +40,7 @@ def c03 (form : String) (e a pre : Bytes) (tag : String) (contents : Bytes)
         | _ => false
       if isAllowed then
         -- (2) contents intact in its own context
-        let seen : Bytes := if form == "content" then out
+        let seen : Bytes := if form == "content" || form == "after" then out
           else match r.tokens with
             | [.startTag _ [(_, v)] _] => CharRef.decodeAttr v
             | _ => []
@@ -49,7 +51,7 @@ def c03 (form : String) (e a pre : Bytes) (tag : String) (contents : Bytes)
           | _ => false
         let intact := if isUrlCtx then SafeHtml.Spec.UrlComp.pctDecode seen == SafeHtml.Spec.UrlComp.pctDecode contents
           else Oracle.C01.contains contents seen
-        if pre.isEmpty && !intact then "fail:typed-value-not-emitted-intact-in-its-own-context"
+        if (pre.isEmpty || form == "after") && !intact then "fail:typed-value-not-emitted-intact-in-its-own-context"
         else "pass"
       else
         -- (3) in every other context: exactly like the plain string with the same contents
